@@ -359,7 +359,7 @@ pub fn plan(tier: Tier) -> Plan {
   let mut jobs = vec![];
   let (l1, l2, l3, jumps) = match tier {
     Tier::Quick => (9, 7, 0, false),
-    Tier::Thorough => (10, 9, 6, true),
+    Tier::Thorough => (12, 10, 7, true),
   };
   for a in &specs {
     jobs.push(task_job(vec![*a], l1, jumps));
